@@ -58,11 +58,13 @@ pub struct HCfg {
     pub ghost: Option<(Enr, SocketAddr, bool)>,
     /// sequence number of the record the application "knows" for node 1 (who-are-you answers)
     pub known_seq: u64,
+    /// packet-filter quotas (ip, node, total): n tokens every n seconds
+    pub rate_limits: Option<(u64, u64, u64)>,
 }
 
 impl Default for HCfg {
     fn default() -> Self {
-        HCfg { nodes: 2, workload: vec![], retries: 1, session_timeout: None, session_capacity: None, allow_drop: true, allow_dup: true, allow_reorder: true, allow_restart: vec![], allow_late_way: true, allow_early_timer: true, force_nonce: false, packet_filter: false, ghost: None, known_seq: 1 }
+        HCfg { nodes: 2, workload: vec![], retries: 1, session_timeout: None, session_capacity: None, allow_drop: true, allow_dup: true, allow_reorder: true, allow_restart: vec![], allow_late_way: true, allow_early_timer: true, force_nonce: false, packet_filter: false, ghost: None, known_seq: 1, rate_limits: None }
     }
 }
 
@@ -236,6 +238,17 @@ impl World {
         }
         if cfg.packet_filter {
             b.enable_packet_filter();
+            b.filter_max_nodes_per_ip(None);
+            b.filter_max_bans_per_ip(None);
+        }
+        if let Some((ip_n, node_n, total_n)) = cfg.rate_limits {
+            let rl = discv5::RateLimiterBuilder::new()
+                .total_n_every(total_n, Duration::from_secs(total_n))
+                .ip_n_every(ip_n, Duration::from_secs(ip_n))
+                .node_n_every(node_n, Duration::from_secs(node_n))
+                .build()
+                .expect("rate limiter");
+            b.filter_rate_limiter(Some(rl));
         }
         let c = b.build();
         v::arm_virtual_socket(true);
